@@ -6,8 +6,10 @@ from . import extract
 def main():
     ok1, n1, _, _ = extract.extract_toggle_vocab()
     ok2, n2 = extract.extract_mt_sinks()
+    ok3, n3 = extract.extract_hash_combine()
     print(n1)
     print(n2)
+    print(n3)
     return 0
 
 
